@@ -5,7 +5,7 @@ from .. import world as W
 from . import _ws
 
 ID = 'C16'
-TIERS = {'quick': {'seeds': 12000, 'seconds': 75, 'determinism': 48},
+TIERS = {'quick': {'seeds': 12000, 'seconds': 45, 'determinism': 48},
          'thorough': {'seconds': 900, 'determinism': 512, 'minimise_s': 120}}
 RULE = ('seeded worlds run with -x and at least one injected bad outcome (failure, error, '
         'unexpected success, failing subtest, layer setUp failure) at a random position, with '
